@@ -27,7 +27,7 @@ EXTRA_COQ_TARGETS = ["MemModel"]
 
 RULE = ("files written by the library's write_fits from in-memory tables of 1..6 dims, mixed orders 0..5, 0..50 auxiliary keys "
         "(short and HIERARCH keys, empty/short/long/numeric/quoted values) plus the shipped test tables, each with no convolution and with "
-        "convolutions of 1..8 kernel knots in random dims; non-trivial = the case has a convolution, or at least one auxiliary key, or >= 2 dims; "
+        "convolutions of 2..8 kernel knots in random dims of order >= 1 (thorough: also one order-0 dimension and one 1-knot kernel); non-trivial = the case has a convolution, or at least one auxiliary key, or >= 2 dims; "
         "distinct by (shape, n, dim)")
 
 SHIPPED = sorted(glob.glob(os.path.join(REPO, "test", "test_data", "*.fits")))
@@ -130,7 +130,12 @@ def kv(block):
 class Runner:
     def __init__(self):
         self.harness = build_harness("C19_harness", ["C19_harness.cpp"], flavour="checked", repo_srcs=CORE_CPP)
-        self.model = build_extracted("mem")
+        try:
+            self.model = build_extracted("mem")
+            self.model_error = None
+        except BuildError as e:
+            # Generated_mem.v / MemModel.v no longer build (translator failed closed): the oracle still runs on the implementation alone
+            self.model, self.model_error = None, str(e)[-1500:]
         self.tmp = os.path.join(VERIF, ".build", "C19_files-%d" % os.getpid())
         shutil.rmtree(self.tmp, ignore_errors=True)
         os.makedirs(self.tmp)
@@ -190,6 +195,8 @@ class Runner:
                     os.remove(path)
                 except OSError:
                     pass
+        if self.model is None:
+            return res
         pm = subprocess.run([self.model], input="\n".join(mlines) + "\n", stdout=subprocess.PIPE, stderr=subprocess.PIPE, text=True, timeout=3000)
         mblocks = parse_blocks(pm.stdout)
         mi = 0
@@ -211,7 +218,9 @@ def judge(r):
         return [], [], []
     if not r["shape"]:
         return [("C19:harness:shape-unreadable", "shape reader failed")], [], []
-    f, im, mo = r["shape_fields"], r["impl"], r.get("model", {})
+    f, im, mo = r["shape_fields"], r["impl"], r.get("model")
+    have_model = mo is not None
+    mo = mo or {}
     if c.get("gen") is not None:
         g = c["gen"]
         exp = ",".join("%d:%d:%d" % (k - o - 1, k, o) for k, o in zip(g["nknots"], g["orders"]))
@@ -222,7 +231,7 @@ def judge(r):
         orc.append(("C19:%s:exception" % ("load" if n == 0 else "load+convolve"), "exception on a well-formed file: %s %s" % (im.get("exception"), im.get("est"))))
         return corr, orc, hyp
     # correspondence, event by event
-    for key, what in (("est", "estimate"), ("load", "load-trace"), ("conv", "conv-trace"), ("destroy", "destroy-trace")):
+    for key, what in [] if not have_model else (("est", "estimate"), ("load", "load-trace"), ("conv", "conv-trace"), ("destroy", "destroy-trace")):
         if im.get(key, "").strip() != mo.get(key, "<none>").strip():
             a, b = im.get(key, "").split(), mo.get(key, "").split()
             k = next((i for i in range(min(len(a), len(b))) if a[i] != b[i]), min(len(a), len(b)))
@@ -230,7 +239,7 @@ def judge(r):
                 what, k, a[k] if k < len(a) else "<end>", b[k] if k < len(b) else "<end>", len(a), len(b))))
     pk = im.get("peak", "").split()
     ipeak = int(pk[0]) if pk else -1
-    if mo and str(ipeak) != mo.get("peak"):
+    if have_model and str(ipeak) != mo.get("peak"):
         corr.append(("C19:correspondence:peak", "measured peak %d, model peak %s" % (ipeak, mo.get("peak"))))
     # the property itself
     est = int(im["est"])
@@ -245,6 +254,8 @@ def judge(r):
             orc.append(("C19:%s:arena-of-estimated-size-fails" % phase, "an allocator limited to the estimated %d bytes refused a request" % est))
     # hypotheses of the theorems on this real case
     h = dict(x.split("=") for x in mo.get("hyps", "").split()) if mo.get("hyps") else {}
+    if not have_model:
+        return corr, orc, hyp
     if h.get("card_limits") != "1":
         hyp.append(("C19:hypothesis:card_limits-false-on-real-file", "strlen(key)+strlen(value) > 80 for a key read back by cfitsio: " + f["aux"]))
     if h.get("valid_conv") != "1":
@@ -302,6 +313,10 @@ def _run(info, out, R):
     for i in range(nfiles):
         f = gen_file(rng.fork("file%d" % i), boundary=(i % 10 == 9))
         cases.append({"gen": f, "path": None, "convs": gen_convs(rng.fork("conv%d" % i), f, 2)})
+    if info["tier"] == "thorough":
+        # the convolutions gen_convs avoids for time (factorial(0) loops 2^32 times, D4): one of each kind on the real code
+        cases.append({"gen": {"periods": 0, "orders": [0, 2], "nknots": [4, 7], "aux": [["SLOW1", "order-0 dimension convolved"]]}, "path": None, "convs": [[3, 0]]})
+        cases.append({"gen": {"periods": 1, "orders": [2, 1], "nknots": [6, 5], "aux": []}, "path": None, "convs": [[1, 1]]})
     results = R.run_cases(cases)
 
     stats = {"corr_fail": 0, "oracle_fail": 0}
@@ -352,6 +367,8 @@ def _run(info, out, R):
                                 "estimate": r["impl"]["est"], "peak": r["impl"]["peak"], "load_trace": r["impl"]["load"][:300], "conv_trace": r["impl"]["conv"][:300]})
         return broke
     broke = consume(results)
+    if R.model is None:
+        broke = True
     evaluations = len(results)
     searched = 0
     if (not info["proof_ok"] or broke) and not stats["oracle_fail"]:
@@ -379,6 +396,9 @@ def _run(info, out, R):
                     pl["no_failing_input_found"] = True
                     pl["broken"] = "correspondence MemModel vs C++: " + sig
                 out.violation(sig, what, pl)
+    if R.model is None and not stats["oracle_fail"]:
+        out.violation("C19:model-does-not-build", "the translated model no longer builds against the tree and no failing input was found",
+                      {"no_failing_input_found": True, "broken": "Generated_mem.v / MemModel.v build: " + (R.model_error or "")})
     if quoted_mismatch:
         out.notes.append("side observation (C20 territory, not part of C19's statement): in %d cases the destructor passed deallocate a byte count smaller than "
                          "the block's (values stored without their FITS quotes are freed with strlen+1; they were allocated with the quoted length)" % quoted_mismatch)
